@@ -499,6 +499,92 @@ def replay_history(index):
     return {"violates": r["status"] == "violated", "detail": r["detail"]}
 
 
+PARAMETER_SCRIPT = r'''
+import sys, os, json, warnings
+warnings.simplefilter("ignore")
+sys.path.insert(0, %(verif)r)
+import numpy as np
+import bempp_cl.api as api
+from bempp_cl.api.utils.parameters import DefaultParameters
+from bempp_cl.api.operators.boundary import laplace
+from bempp_cl.api.operators.potential import laplace as plaplace
+from vlib import zoo as Z
+problems = []
+G = api.GLOBAL_PARAMETERS
+def leaves(obj, prefix=""):
+    out = {}
+    for k, v in sorted(vars(obj).items()):
+        if hasattr(v, "__dict__") and not isinstance(v, (int, float, str, bool)):
+            out.update(leaves(v, prefix + k.lstrip("_") + "."))
+        else:
+            out[prefix + k.lstrip("_")] = v
+    return out
+def snapshot(obj):
+    # public view of all option groups (quadrature orders read through their public names)
+    d = {"quadrature.regular": obj.quadrature.regular, "quadrature.singular": obj.quadrature.singular}
+    for grp in ("fmm", "assembly", "output", "verbosity"):
+        if hasattr(obj, grp):
+            for k, v in leaves(getattr(obj, grp), grp + ".").items():
+                d[k] = v if isinstance(v, (int, float, str, bool, type(None))) else repr(v)
+    return d
+g0 = snapshot(G)
+fresh0 = snapshot(DefaultParameters())
+# 1. configuring an explicit object changes neither the global object nor later fresh objects
+p = DefaultParameters()
+p.quadrature.regular, p.quadrature.singular = 7, 6
+p.fmm.expansion_order, p.fmm.ncrit = 9, 17
+if snapshot(G) != g0:
+    problems.append("configuring an explicit parameter object changed GLOBAL_PARAMETERS: %%s" %% {k: (g0[k], v) for k, v in snapshot(G).items() if g0[k] != v})
+if snapshot(DefaultParameters()) != fresh0:
+    problems.append("configuring an explicit parameter object changed the defaults of later DefaultParameters() objects")
+# 2. changing the global object afterwards does not change the explicit object
+G.quadrature.regular, G.quadrature.singular = 2, 3
+G.fmm.expansion_order = 4
+if (p.quadrature.regular, p.quadrature.singular, p.fmm.expansion_order, p.fmm.ncrit) != (7, 6, 9, 17):
+    problems.append("setting GLOBAL_PARAMETERS changed an explicit parameter object: it now holds %%s" %% ((p.quadrature.regular, p.quadrature.singular, p.fmm.expansion_order, p.fmm.ncrit),))
+# 3. an explicit object is honoured exactly as the same values set globally
+grid = Z.grid_with_domains("octa")
+dp0, p1 = api.function_space(grid, "DP", 0), api.function_space(grid, "P", 1)
+x = np.arange(1.0, dp0.global_dof_count + 1)
+pts = np.array([[2.0, 0.1], [0.3, 2.2], [0.1, -0.4]])
+q = DefaultParameters()
+q.quadrature.regular, q.quadrature.singular = 7, 6
+a_explicit = laplace.single_layer(dp0, p1, p1, parameters=q).weak_form() @ x            # global is 2/3 here
+v_explicit = plaplace.single_layer(dp0, pts, parameters=q).evaluate(api.GridFunction(dp0, coefficients=x)).ravel()
+G.quadrature.regular, G.quadrature.singular = 7, 6
+a_global = laplace.single_layer(dp0, p1, p1).weak_form() @ x
+v_global = plaplace.single_layer(dp0, pts).evaluate(api.GridFunction(dp0, coefficients=x)).ravel()
+G.quadrature.regular, G.quadrature.singular = 2, 3
+a_other = laplace.single_layer(dp0, p1, p1).weak_form() @ x
+if not (np.array_equal(a_explicit, a_global) and np.array_equal(v_explicit, v_global)):
+    problems.append("explicit parameter object (7/6) while the global orders are 2/3 differs from the global orders set to 7/6: %%.2e / %%.2e" %% (np.abs(a_explicit - a_global).max(), np.abs(v_explicit - v_global).max()))
+if np.array_equal(a_other, a_global):
+    problems.append("vacuity: orders 2/3 and 7/6 give identical matrices")
+print("RESULT" + json.dumps(problems))
+'''
+
+
+def replay_parameter_objects():
+    env = dict(os.environ, NUMBA_DISABLE_JIT="1", PYTHONPATH="%s:%s" % (VERIF, REPO))
+    p = subprocess.run([sys.executable, "-c", PARAMETER_SCRIPT % {"verif": VERIF}], capture_output=True, text=True, env=env, timeout=600)
+    for line in p.stdout.splitlines():
+        if line.startswith("RESULT"):
+            probs = json.loads(line[6:])
+            return {"violates": bool(probs), "problems": probs}
+    return {"violates": True, "problems": ["the scripted session raised: %s" % (p.stderr or p.stdout)[-500:]]}
+
+
+def ob_parameter_objects():
+    """bounded (fresh interpreter): parameter objects are independent values - configuring an explicit object changes neither GLOBAL_PARAMETERS nor later default
+    objects, changing GLOBAL_PARAMETERS afterwards does not change the explicit object, and an operator / potential assembled with the explicit object while the global
+    orders are different is bitwise the one assembled with parameters=None after setting the global orders to the same values."""
+    r = replay_parameter_objects()
+    if r["violates"]:
+        return violated("parameter objects are not independent / not honoured like the same global values: %s" % r["problems"][:3], witness={"problems": r["problems"]},
+                        signature="parameter-objects", replay={"callable": "checks.c18:replay_parameter_objects", "kwargs": {}, "confirmed": True, "result": r})
+    return held("explicit, global and fresh parameter objects are independent; explicit 7/6 == global 7/6 bitwise (dense matrix action, potential)")
+
+
 def ob_precision():
     """bounded: precision='single' agrees with 'double' to single-precision accuracy (dense, sparse, potential)."""
     import bempp_cl.api as api
@@ -541,6 +627,7 @@ def main():
     for i in range(1, len(HISTORIES) if thorough else 5):
         run.add("history[%d]" % i, "bounded", ob_history, i)
     run.add("precision.single-vs-double", "bounded", ob_precision)
+    run.add("parameter-objects.independent+honoured-like-global", "bounded", ob_parameter_objects)
     run.functions["bempp_cl (all modules, AST scan)"] = {"sha256_16": "n/a", "dropped": "dynamic aliasing of the global objects is not tracked (textual reads only)"}
     run.bound("histories: %d scripted sequences over 10 actions (create/assemble dense & FMM operators, strong form, change global quadrature / FMM parameters, clear_fmm_cache, "
               "create space, mass matrix, FMM potential), exafmm = exact-sum stub, compared with a fresh interpreter" % (len(HISTORIES) - 1))
